@@ -19,6 +19,7 @@ TB = [
     "hand-written decision model lean/SmVerif/Model/SketchFromfile.lean of `sketch fromfile` (requested / already done / missing / built, grouping, exits) tied to /repo by fromfile ops that run the real command in-process (CSV, FASTA files and an --already-done zip in a temp dir); the Rust path ComputeParameters -> Signature::from_params -> add_sequence/add_protein tied by rust-harness module `sketch` (native ops)",
     "hand-written decision model lean/SmVerif/Model/SketchNames.lean of _compute_individual / _compute_merged / set_sig_name (grouping of records into signatures, names, recorded file name), tied to /repo by `names` ops that run the real _execute_sketch in-process on temp FASTA files under .build/tmp",
     "hand-written model lean/SmVerif/Model/SketchCompute.lean of `sourmash compute`'s option -> ComputeParameters mapping and its exits, tied to /repo by `cmp` ops; `sk` / `cmp` / `fromfilecli` ops go through sourmash.__main__.main(argv) in the adapter process (argparse, sourmash.cli.sketch.*, command_sketch.dna/protein/translate/fromfile/_compute_sigs/_add_from_file_to_filenames, command_compute.compute) on temp files and read the written signatures back; the translator refuses to run when any definition shared by command_sketch.py and command_compute.py differs between the two files, and reads off whether --output-dir is created (sketchCreatesOutdir)",
+    "periphery (adapter-side, the model does not see it): ROUTES - the adapter alternates, as a function of the op text, among the spellings that end in one helper / native call (ComputeParameters: constructor keywords / defaults + every property setter in rotated order / overwrite of an object built with other values / from_args, of the command_sketch and the command_compute copy; add_sequence / add_protein vs add_seq of either module; set_sig_name of either module, positional vs keyword; _execute_sketch vs command_sketch.dna vs main(); long and short option names, --merge/--name, --output-dir/--outdir, --dna/--rna/--nucleotide; input container FASTA / wrapped FASTA / FASTQ / gzip; `-` = standard input through a child interpreter); VIEWS - after every op the adapter asserts that the routes to one fact agree (md5sum FIELD written by the command = md5sum() of the loaded signature = md5 of its sketch; mins / len / hashes / abundances; name / filename / license fields vs attributes; signatures_save_buffer plain vs gzip vs signature_save_json; sig.minhash vs the first written sketch; `-o` .sig vs .sig.gz / .zip (+ manifest rows) / directory / .sqldb of the same command; ComputeParameters fields read back, ==, repr, to_param_str and manifest-row round trips; --output-csv-info rows vs the signatures built) and reports a disagreement as `view-mismatch` (oracle signature C14:sketch:views-disagree); HISTORIES - every object a call returned is kept until the end of the case with what was observed then, and observed again after every later op",
     "Stable (max_hash_for_scaled . scaled_for_max_hash = id on the threshold) is a hypothesis of the conversion theorems; proved here by kernel evaluation for 13 common scaled values, in general it is C03's theorem for scaled <= 2^31",
 ]
 AS = ["sketches are num or scaled, not both (Excl): proved for everything the factory builds (factory_builds_excl); the Rust constructors also accept both, where KmerMinHash overgrows (C01 finding) and the two types disagree",
@@ -42,7 +43,10 @@ RULE = ("twin stream: histories of 1..50 ops (add, add_hash_with_abundance incl.
         "--dna/--protein/--dayhoff/--hp/--input-is-protein, --num-hashes, --scaled (0, < 1, fractional, integer), --track-abundance, "
         "--seed, and `sourmash sketch fromfile`, each with the layout options above and --from-file, in-process through "
         "sourmash.__main__.main; the independent oracle expects one sketch per requested (k, moltype) for every unit the documentation "
-        "names; every refusal is compared with its reason code (one per raise site); non-trivial = a fed sketch holds >= 2 hashes; "
+        "names; also: subcommand aliases as typed (rna / nucleotide / nt, aa / prot), --license other than CC0 (8 spellings), -f/--force "
+        "and an output file that exists before the run (+pre), record names that are empty / repeated / 300-3000 characters long, the "
+        "same record twice, an input on standard input; sigeq ops (implementation only, the model answers skip): == / != between factory-built "
+        "(tree-backed) signatures, a signature around a directly created sketch fed the same records, and unfed ones; every refusal is compared with its reason code (one per raise site); non-trivial = a fed sketch holds >= 2 hashes; "
         "distinct = distinct op lists")
 
 
@@ -72,6 +76,8 @@ def run_sketch_stream(chk, pkg, n):
         if sketch.nontrivial(case, impl):
             distinct.add(hash(tuple(case)))
         k = streamlib.first_diff(sketch, impl, model)
+        if k is not None and any(o[0] == k for o in sketch.oracle(case, impl)):
+            k = None          # the independent oracle condemns this very op (reported below): no shrinking / re-running
         if k is not None:
             bad_corr += 1
             small = case
